@@ -10,6 +10,18 @@ NOTE = ("Trusted: Lean 4.33 kernel; axioms propext/Classical.choice/Quot.sound o
         "-O2 build (thorough: also -O0 and -march=native, all alignments). Constants and README tables are regenerated from "
         "/repo on every run (tools/gen.py). Clauses not yet carried by a theorem are listed in the evidence under not_yet_proved.")
 CLAIMED = {
+ "C02": ("Round-trip theorems for arrays of every length (delta signed/unsigned, frame-of-reference incl. random access, "
+         "run-length); all codecs (also PFOR, group, dict, Elias, BP128) are modelled and tied to the code by the "
+         "correspondence, with the round-trip / random-access monitors run on the implementation from exact-size copies",
+         "Lean 4 proof by induction over the array + differential correspondence with the C codecs"),
+ "C03": ("length-of-output theorems (delta bound, RLE exact + bound, FOR exact); every encoder is run into a buffer of "
+         "exactly the advertised size followed by a canary", "Lean 4 proof of size bounds + canary at the advertised size"),
+ "C13": ("for every byte string the model decoder stores at most cap values (FOR, RLE) and returns the documented "
+         "failure or a correct prefix; every decoder is run with capacities 0..n into exactly-sized output blocks with guards",
+         "Lean 4 proof over all byte strings + guard elements on the implementation"),
+ "C16": ("metadata of the model = real properties of the data (FOR min/max/range/width/size, RLE runs), header accessors "
+         "read back what was encoded; harness recomputes ground truth independently for every codec",
+         "Lean 4 proof + independently recomputed ground truth in the harness"),
  "C01": ("Theorems for all 2^64 values (any trailing bytes) about the executable model of all nine scalar families incl. "
          "fixed-width, quick-macro, reversed and 32-bit forms and the signed helpers; correspondence harness ties model to code",
          "Lean 4 proof over executable model + differential correspondence with the C code"),
